@@ -35,6 +35,9 @@ type FlowCfg struct {
 	// DupTitles: one program in five ends with an extra node whose title repeats an earlier one (other body,
 	// other tracking header). The first definition is the node of that name; the extra one is never entered.
 	DupTitles bool
+	// EmptyTitle: one program in eight gives its first node an empty title ("title:" with nothing after it),
+	// which the library accepts; no jump can name it, but snapshots and visit counts do.
+	EmptyTitle bool
 }
 
 func DefaultFlow() FlowCfg {
@@ -79,6 +82,9 @@ func Flow(r *core.Rand, cfg FlowCfg) *hast.Program {
 	if cfg.StartNotFirst && !cfg.Random && n >= 2 && r.Chance(1, 4) {
 		k := r.Range(1, n-1)
 		g.titles[0], g.titles[k] = g.titles[k], g.titles[0]
+	}
+	if cfg.EmptyTitle && !cfg.Random && r.Chance(1, 8) {
+		g.titles[0] = ""
 	}
 	g.sc.Visited = append(append([]string{}, g.titles...), "Nowhere")
 	g.budget = r.Range(cfg.MaxStmts/3+1, cfg.MaxStmts)
